@@ -171,6 +171,12 @@ class CallsMixin:
             pc = z3.Or(pcs) if len(pcs) > 1 else pcs[0]
             if self.fork(st, pc):
                 raise PanicEx('callee %s panics' % key)
+        pos = [self.sev_bool(env_pre, cl.expr) for cl in c.get('panics_only_if')]
+        if pos:
+            may = fresh('maypanic', B)
+            if self.fork(st, may):
+                st.assume(z3.Or(pos) if len(pos) > 1 else pos[0])
+                raise PanicEx('callee %s may panic' % key)
         # havoc what the callee assigns
         for cl in c.get('assigns'):
             for target in speclang.split_top(cl.text, ','):
@@ -197,7 +203,21 @@ class CallsMixin:
             return results[0]
         return TupleV(results)
 
+    def crash_points(self, st, key, e):
+        """`crashinv P`: P is asserted after every external call of the function (a crash may happen there)"""
+        if not self.frame or not self.frame.contract:
+            return
+        for cl in self.frame.contract.get('crashinv'):
+            try:
+                g = self.sev_bool(SpecEnv(st, {}, st.entry), cl.expr)
+            except Unsupported as ex:
+                if 'unknown name' in str(ex):
+                    continue          # a local named by the invariant is not in scope yet
+                raise
+            self.oblige(st, 'crashinv after %s@%s' % (key.split('/')[-1], e.get('line')), g, src=e.get('line'))
+
     def after_call_hooks(self, st, key, binds, old, e):
+        self.crash_points(st, key, e)
         """`after <callee>: use <lemma>(args)` / `after <callee>: assume-split ...` clauses of the function under verification."""
         if not self.frame or not self.frame.contract:
             return
@@ -325,6 +345,10 @@ class CallsMixin:
             return
         if target[0] == 'un' and target[1] == '*' or (target[0] == 'call' and target[1] == ('id', 'deref')):
             x = self.sev(env, target[2][0] if target[0] == 'call' else target[2])
+            if isinstance(x, IfaceV) and isinstance(x.concrete, PtrV):
+                x = x.concrete
+            if not isinstance(x, PtrV):
+                raise Unsupported('assigns deref(...) of a value that is not a known pointer')
             v = self.lay.fresh(x.etid, 'hv.deref')
             for w in self.lay.wf(v, x.etid): st.assume(w)
             self.store_ptr(st, x, v)
